@@ -713,7 +713,10 @@ func (p *Parser) parseMemberExpressionRest(expr Expression) Expression {
 		}
 
 		dotToken := p.gotToken(SK_Dot)
-		exclamationDot := p.gotToken(SK_ExclamationDot)
+		var exclamationDot *TokenNode
+		if dotToken == nil {
+			exclamationDot = p.gotToken(SK_ExclamationDot)
+		}
 		if dotToken != nil || exclamationDot != nil {
 			var node = new(SelectorExpression)
 			node.Expression = expr
